@@ -28,7 +28,9 @@ RULE = (
     "quoter's static buffer, while 1-2 extra threads loop over cache_clear()/cache_configure(random sizes).  sys.setswitchinterval(1e-6); a second "
     "pass injects GIL hand-offs at LINE granularity inside the staged yarl files through sys.monitoring.  Every event is compared with the "
     "sequentially pre-computed outcome.  Signature = (op, accessor/modifier, thread count, pass); distinct pre-emption lines and distinct "
-    "cross-thread overlap pairs are reported as interleaving coverage.  Thorough adds ASan+UBSan and TSan (instrumented launcher) builds."
+    "cross-thread overlap pairs are reported as interleaving coverage.  ROLE-SPLIT rounds: each thread repeats one kind of pure call (rendering URLs of "
+    "every scheme kind incl. authority-less ones, join pairs per scheme family, construction/build, modifiers) in a tight loop under three switch intervals, "
+    "every result compared online with its sequential value.  Thorough adds ASan+UBSan and TSan (instrumented launcher) builds."
 )
 ASSUMPTIONS = [
     "schedules are sampled, not enumerated; TSan sees only true data races (accesses ordered by the GIL are ordered), atomicity violations are the differential monitor's job",
@@ -64,6 +66,8 @@ def plan(tier, seed):
             jobs.append({"variant": v, "part": "threads", "shard": n, "nshards": 1, "params": {"threads": n, "rounds": rounds, "steps": 600 if thorough else 300, "inject": False}})
         jobs.append({"variant": v, "part": "threads", "shard": 104, "nshards": 1, "params": {"threads": 4, "rounds": 8 if thorough else 2, "steps": 120 if thorough else 60, "inject": True}})
         jobs.append({"variant": v, "part": "threads", "shard": 108, "nshards": 1, "params": {"threads": 8, "rounds": 6 if thorough else 2, "steps": 100 if thorough else 40, "inject": True}})
+        for n in (4, 8):
+            jobs.append({"variant": v, "part": "roles", "shard": 400 + n, "nshards": 1, "params": {"threads": n, "rounds": 6 if thorough else 2, "iters": 60000 if thorough else 12000}})
     if thorough:
         for n in (4, 16):
             jobs.append({"variant": "asan", "part": "threads", "shard": 200 + n, "nshards": 1, "params": {"threads": n, "rounds": 10, "steps": 400, "inject": False}})
@@ -282,6 +286,103 @@ class Injector:
         return lines, pairs
 
 
+# ---------------------------------------------------------------------- role-split tight loops
+# Each thread of a round has ONE role and repeats its (pure) calls in a tight loop, so that a kind of call that touches some
+# module-level state (a scheme table, a memo, a quoter buffer) meets - thousands of times - every other kind of call that reads it.
+SCHEME_TEXTS = ["mailto:user@example.com", "tel:+1-201-555-0123", "urn:isbn:0451450523", "foo:bar", "data:,x%20y", "x-app:/p/q", "news:comp.lang", "file:///p/q", "file:/p", "file://host/p", "git://h/p",
+                "svn+ssh://u@h/p", "sqlite:////var/db", "HTTP://H/p", "//h/p", "/p?q#f", "p/q", "?q", "#f", "", "ws://h", "wss://h:443/?q", "ftp://u:p@h:21/f", "rsync://h/m", "custom://", "custom:///p",
+                "x://:80/p", "foo://u@/p"]
+JOIN_PAIRS = [("http://base.example/a/b", "http://other.example/x", False), ("http://base.example/a/b", "//other.example/x/../y", False), ("http://base.example/a/b", "https://other.example/x", False),
+              ("http://base.example/a/b", "../c?q#f", False), ("ftp://b/a/b", "ftp://o/x", False), ("ws://b/a", "ws://u:p@o:81/x?q", False), ("file:///a/b", "file:///c", False), ("file:///a/b", "c", False),
+              ("git://h/a/b", "git://g/x", False), ("git://h/a/b", "//g/x", False), ("foo://h/a/b", "foo://g/x", False), ("foo://h/a/b", "x", False), ("mailto:a@b", "c@d", False), ("http://b/a", "http://g/x/./y", True),
+              ("rsync://h/m/a", "rsync://g/n", False), ("svn+ssh://u@h/p/q", "../r", False), ("http://b", "mailto:x@y", False), ("custom://h/a", "custom://g/b", False), ("sftp://h/a/b", "sftp://g/c", False)]
+
+
+def role_calls():
+    from yarl import URL
+
+    def mk(fn, *a, **k):
+        return lambda: fn(*a, **k)
+
+    roles = {"render": [], "join": [], "construct": [], "modify": []}
+    for t in SCHEME_TEXTS:
+        roles["render"].append((f"str(URL({t!r}))", lambda t=t: str(URL(t))))
+        roles["render"].append((f"URL({t!r}, encoded=True).human_repr()", lambda t=t: URL(t, encoded=True).human_repr()))
+        roles["render"].append((f"repr(URL({t!r}))", lambda t=t: repr(URL(t))))
+        roles["construct"].append((f"URL(str(URL({t!r})))", lambda t=t: URL(str(URL(t)))))
+        roles["modify"].append((f"URL({t!r}).with_fragment('z')", lambda t=t: URL(t).with_fragment("z")))
+        roles["modify"].append((f"URL({t!r}).with_scheme('https')", lambda t=t: URL(t).with_scheme("https")))
+        roles["modify"].append((f"URL({t!r}).origin()", lambda t=t: URL(t).origin()))
+        roles["modify"].append((f"URL({t!r}) / 'seg'", lambda t=t: URL(t) / "seg"))
+    for b, r_, enc in JOIN_PAIRS:
+        roles["join"].append((f"URL({b!r}).join(URL({r_!r}, encoded={enc}))", lambda b=b, r_=r_, enc=enc: URL(b).join(URL(r_, encoded=enc))))
+    for h in HOSTS:
+        for sch in ("http", "foo", "file", ""):
+            roles["construct"].append((f"build({sch!r}, {h!r})", lambda h=h, sch=sch: URL.build(scheme=sch, host=h, path="/p", user="u")))
+            roles["construct"].append((f"build({sch!r}, authority={h!r})", lambda h=h, sch=sch: URL.build(scheme=sch, authority=h + ":81", path="/p")))
+    return roles
+
+
+def run_roles(ctx):
+    import yarl
+
+    warnings.simplefilter("ignore")
+    P = ctx.params
+    nthreads, rounds, iters = P["threads"], P["rounds"], P["iters"]
+    roles = role_calls()
+    kinds = sorted(roles)
+    old_si = sys.getswitchinterval()
+    total = 0
+    try:
+        for rd in range(rounds):
+            sys.setswitchinterval([1e-6, 2e-5, 1e-4][rd % 3])
+            yarl.cache_configure()
+            yarl.cache_clear()
+            expected = {k: [out_of(guarded(fn)) for _, fn in roles[k]] for k in kinds}
+            yarl.cache_clear()
+            mism, errors, done = [], [], [0] * nthreads
+            start = threading.Barrier(nthreads)
+
+            def worker(ti):
+                kind = kinds[(ti + rd) % len(kinds)]
+                calls_, exp = roles[kind], expected[kind]
+                n = len(calls_)
+                try:
+                    start.wait()
+                    k = ti * 7
+                    for _ in range(iters):
+                        k = (k + 1) % n
+                        got = out_of(guarded(calls_[k][1]))
+                        if got != exp[k]:
+                            if len(mism) < 50:
+                                mism.append((ti, kind, calls_[k][0], got, exp[k]))
+                        done[ti] += 1
+                except BaseException as e:  # noqa: BLE001
+                    errors.append((ti, repr(e)))
+
+            ths = [threading.Thread(target=worker, args=(ti,)) for ti in range(nthreads)]
+            for t in ths:
+                t.start()
+            for t in ths:
+                t.join(900)
+            if any(t.is_alive() for t in ths):
+                ctx.crash = "a role thread did not finish within the watchdog (inconclusive)"
+                return
+            for ti, e in errors:
+                ctx.fail("thread_exception", {"round": rd, "thread": ti, "threads": nthreads, "part": "roles"}, f"uncaught {e}")
+            for ti, kind, label, got, want in mism:
+                ctx.fail("differs_from_sequential", {"round": rd, "thread": ti, "threads": nthreads, "part": "roles", "role": kind, "call": label},
+                         f"role {kind} thread {ti}: {label} gave {str(got)[:160]} expected {str(want)[:160]}")
+            total += sum(done)
+            for kind in {kinds[(ti + rd) % len(kinds)] for ti in range(nthreads)}:
+                ctx.ev(("roles", kind, nthreads, rd % 3))
+            ctx.count("role_rounds")
+    finally:
+        sys.setswitchinterval(old_si)
+    ctx.count("role_calls_checked", total)
+    ctx.sample({"threads": nthreads, "part": "roles"})
+
+
 def run(ctx):
     import os
 
@@ -294,6 +395,9 @@ def run(ctx):
     if ctx.part == "replay":
         ctx.notes["replay"] = "thread schedules are not replayable deterministically; re-run the check with the recorded seed"
         ctx.ev(("replay",))
+        return
+    if ctx.part == "roles":
+        run_roles(ctx)
         return
     warnings.simplefilter("ignore")
     P = ctx.params
@@ -446,6 +550,8 @@ def finalize(merged, results, tier):
     c = merged["counters"]
     if c.get("events_checked", 0) == 0:
         unmet.append("no thread event was checked")
+    if c.get("role_calls_checked", 0) == 0:
+        unmet.append("the role-split phase checked no call")
     if c.get("churn_calls", 0) == 0:
         unmet.append("cache churn threads never ran")
     lines, pairs = set(), set()
